@@ -5,6 +5,7 @@
 // linearizable to a sequential LIFO stack; an eliminated push/pop pair must hand the pushed
 // item to exactly one popper.
 #include "common.h"
+#include "stats.h"
 
 #include <cds/container/treiber_stack.h>
 #include <cds/intrusive/treiber_stack.h>
@@ -490,5 +491,108 @@ namespace cdsverif {
     {
         size_t v = size_t( c.variant ) < kNumVariants ? size_t( c.variant ) : 0;
         return kVariants[v].run( c );
+    }
+
+    // --extra elim2 <G> <variants csv | all> [programs csv | all]
+    // Enumerates, for fixed 3-thread one-operation programs on a stack prefilled with one item, every
+    // schedule with at most two pre-emptions (start thread 0..2, pre-emption targets 0..1, gaps up
+    // to the point where the pre-emption no longer fires, capped by G), with a collision-array seed
+    // that makes the first two slot choices coincide.
+    // Elimination needs exactly this shape: two threads stopped between reading the top and their
+    // CAS while the third one changes the top; random pre-emption lists hit it in < 0.5% of the cases.
+    int harness_extra( int argc, char** argv, RunStats& stats )
+    {
+        Schema const& s = harness_schema();
+        if ( argc < 1 || std::string( argv[0] ) != "elim2" ) {
+            fprintf( stderr, "usage: --extra elim2 [G] [variants csv|all] [programs csv|all]\n" );
+            return 2;
+        }
+        int G = argc > 1 ? atoi( argv[1] ) : 400;     // safety cap of the gaps; the loops stop where a pre-emption no longer fires
+        auto parse_list = []( const char* a, size_t n ) {
+            std::vector<int> out;
+            if ( !a || std::string( a ) == "all" ) {
+                for ( size_t i = 0; i < n; ++i )
+                    out.push_back( int( i ));
+                return out;
+            }
+            std::stringstream ss( a );
+            std::string tok;
+            while ( std::getline( ss, tok, ',' ))
+                if ( !tok.empty() && size_t( atoi( tok.c_str())) < n )
+                    out.push_back( atoi( tok.c_str()));
+            return out;
+        };
+        // op codes: 0 push, 1 pop
+        static const int kProgs[][3] = { { 0, 1, 0 }, { 1, 0, 1 }, { 0, 1, 1 }, { 1, 0, 0 } };
+        size_t const nProgs = sizeof( kProgs ) / sizeof( kProgs[0] );
+        std::vector<int> variants = parse_list( argc > 2 ? argv[2] : nullptr, kNumVariants );
+        std::vector<int> progs = parse_list( argc > 3 ? argv[3] : nullptr, nProgs );
+        // a seed whose first two draws select the same slot for every capacity 1..4
+        uint64_t seed = 0;
+        for ( ;; ++seed ) {
+            CaseRng::seed( seed );
+            uint32_t a = CaseRng::next(), b = CaseRng::next();
+            if ( a % 12 == b % 12 )
+                break;
+        }
+        auto eval = [&]( Case const& c, Verdict& v ) {
+            write_file( stats.prefix + ".current.case", to_text( c, s ));
+            v = run_case( c );
+            stats.account( c, v, s, false );
+            if ( v.kind == V_FAIL ) {
+                write_file( stats.prefix + ".failing.case", to_text( c, s ) + "# " + v.msg + "\n" );
+                return false;
+            }
+            return true;
+        };
+        for ( int var : variants )
+            for ( int pi : progs ) {
+                Case base;
+                base.harness = s.name;
+                base.variant = var;
+                base.cfg = { 1, 2, 0, 0 };      // prefill=1 dyn_capacity=2 sync_start=0 walk=0
+                base.seed = seed;
+                for ( int t = 0; t < 3; ++t )
+                    base.prog.push_back( { Op{ kProgs[pi][t], 0, 0 } } );
+                Verdict v;
+                bool capped = false;
+                for ( uint32_t start = 0; start < 3; ++start ) {
+                    Case c0 = base;
+                    c0.start = start;
+                    if ( !eval( c0, v ))
+                        return 1;
+                    for ( uint32_t t1 = 0; t1 < 2; ++t1 )
+                        for ( int g1 = 0; ; ++g1 ) {
+                            if ( g1 > G ) {
+                                capped = true;
+                                break;
+                            }
+                            Case c1 = c0;
+                            c1.sched.push_back( { uint32_t( g1 ), t1 } );
+                            if ( !eval( c1, v ))
+                                return 1;
+                            if ( v.sched.preemptions < 1 )
+                                break;          // the workers were over before the pre-emption: larger gaps change nothing
+                            for ( uint32_t t2 = 0; t2 < 2; ++t2 )
+                                for ( int g2 = 0; ; ++g2 ) {
+                                    if ( g2 > G ) {
+                                        capped = true;
+                                        break;
+                                    }
+                                    Case c2 = c1;
+                                    c2.sched.push_back( { uint32_t( g2 ), t2 } );
+                                    if ( !eval( c2, v ))
+                                        return 1;
+                                    if ( v.sched.preemptions < 2 )
+                                        break;
+                                }
+                        }
+                }
+                std::string prog;
+                for ( int t = 0; t < 3; ++t )
+                    prog += std::string( t ? "|" : "" ) + ( kProgs[pi][t] ? "pop" : "push" );
+                stats.exhaustive_domains.push_back( std::string( kVariants[var].name ) + ": program " + prog + " on a stack prefilled with 1 item, every start thread, every schedule with <= 2 pre-emptions (targets 0..1)" + ( capped ? " of gap <= " + std::to_string( G ) : std::string()));
+            }
+        return 0;
     }
 }
